@@ -146,12 +146,17 @@ def judge(ctx, idx, case):
     hub = ctx.hub
     hub.context = {"check": ID, "idx": idx}
     r = random.Random(case["seed"])
-    st = common.build(case["ops"], observed=True)   # built while accessors / printing / ==, hash / look-ups observe it
+    # three quarters of the documents are built while accessors / printing / ==, hash / look-ups observe them; one quarter is built
+    # without any observation, so that the first export of the call sequence is really the first time the library prints these values
+    # (anything the library remembers between exports is then cold for the first call and warm for the second)
+    observed = case["seed"] % 4 != 0
+    st = common.build(case["ops"], observed=observed)
     doc = st.doc
     ctx.count("observations_during_construction", getattr(st, "observations", 0))
+    ctx.count("builds.%s" % ("observed" if observed else "unobserved"))
     # the twin is built by exactly the same calls (including the same read-only observations: an accessor such as
     # record.label touches the attribute table's key order, which PROV-N prints, so "the same calls" has to include them)
-    twin = common.build(case["ops"], observed=True).doc
+    twin = common.build(case["ops"], observed=observed).doc
     problems = []
     ev0 = hub.counts["PURE.evaluations"]
     foreign = None
